@@ -64,6 +64,21 @@ CHECKS.update({
     technique='property-based testing over a machine catalogue with a counting-source oracle + bounded exhaustive limit sweep'),
 })
 
+CHECKS.update({
+ 'C09': dict(level='exploration', design='3/C09',
+    text='Engine A: 2..3 real session threads run generated request lists through the in-process simulator one at a time under a harness-owned deterministic scheduler (sys.settrace steps at call/line granularity, cpppo\'s locks swapped for scheduler-aware ones, Hypothesis-drawn schedules of count-based and function-directed preemptions); the recorded invocation/response history is checked for reply ownership, exceptions, private data, untorn vectors and, exhaustively (Wing-Gong), linearizability against the array model. Engine B: 8 real client threads over TCP with a 1 microsecond switch interval, interleaving-independent clauses only. Bounded exploration of interleavings; cannot show absence of races.',
+    note='Trusted: CPython (settrace, GIL), Hypothesis, vp/sched.py, vp/refcodec.py. A Multiple Service Packet is linearised member by member. Line-internal races are not split.',
+    technique='schedule-controlled concurrency testing (Hypothesis-drawn preemption schedules) + linearizability checking; real-thread stress'),
+ 'C11': dict(level='exploration', design='3/C11',
+    text='All regular-expression ASTs up to a size bound over a small alphabet x all strings up to a length bound (exhaustive, sharded), plus Hypothesis ASTs with multi-byte symbols, strings and chunkings, for the str and bytes machines; oracle = Brzozowski derivatives over an own AST (no greenery, no re): longest viable prefix consumed and stored, terminal iff that prefix (length >= 1) is a sentence, NonTerminal otherwise, identical for every chunking. Exhaustive within the stated bounds only. One upstream (greenery 2.1) finding is listed as known.',
+    note='Trusted: CPython, Hypothesis, vp/regexref.py (self-tested against re.fullmatch on the shared syntax at start).',
+    technique='bounded exhaustive enumeration + property-based testing against a derivative-based reference semantics'),
+ 'C15': dict(level='exploration', design='3/C15',
+    text='The complete personality x request-route-path-kind x service grid (5x9x11) with drawn values, in-process, plus text forms of route paths, client-built frames and a CLI matrix over TCP; oracle = decision table of the statement, typed-array model on acceptance, and on refusal one error reply, unchanged snapshot and zero Attribute accesses (counting Attribute subclass). Exploration; the grid itself is enumerated completely.',
+    note='Trusted: CPython, Hypothesis, vp/refcodec.py, vp/model.py. Multi-segment personalities are set as class attributes (main() restricts the CLI to one segment).',
+    technique='exhaustive decision-table grid with property-based values + text round trip'),
+})
+
 PENDING = {}
 
 def main():
